@@ -151,13 +151,28 @@ def blockAt (s : State) (h : Nat) : Option Blk :=
   | some id => s.stored id
   | none => none
 
-/-- `txHashCache.Add(block)` (called from connectBlock before the batch is written). -/
-def cacheAdd (P : Params) (s : State) (b : Blk) : List (Nat × Nat) :=
-  let c := cacheAddList P s.cache b.txs
+/-- `txHashCache.Add(block)` on a cache `c0`: the block's TxHeight transactions enter, those of
+the main-chain block `hi + lo` below leave. -/
+def cacheAddTo (P : Params) (s : State) (c0 : List (Nat × Nat)) (b : Blk) : List (Nat × Nat) :=
+  let c := cacheAddList P c0 b.txs
   if b.height < s.hi + s.lo then c else
   match blockAt s (b.height - (s.hi + s.lo)) with
   | some d => cacheDelList P c d.txs
   | none => c
+
+/-- `txHashCache.Add(block)` (called from connectBlock before the batch is written). -/
+def cacheAdd (P : Params) (s : State) (b : Blk) : List (Nat × Nat) := cacheAddTo P s s.cache b
+
+/-- `InitCache(currHeight)` at start-up: a fresh txHeight cache is fed the main-chain blocks of
+the last `hi + lo` heights (`currHeight - hi - lo + 1 .. currHeight`, not below 0), oldest first. -/
+def cacheRebuild (P : Params) (s : State) : List (Nat × Nat) :=
+  let cur := s.last.toNat
+  let w := s.hi + s.lo
+  let from_ := (cur + 1) - w
+  ((List.range (cur + 1 - from_)).map (· + from_)).foldl
+    (fun c h => match blockAt s h with
+      | some b => cacheAddTo P s c b
+      | none => c) []
 
 /-- `txHashCache.Del(height)` (called from disconnectBlock before the block is deleted). -/
 def cacheDel (P : Params) (s : State) (height : Nat) : List (Nat × Nat) :=
@@ -398,16 +413,37 @@ def init (fin margin hi lo : Nat) (recSeq : Bool) (g : Blk) : State :=
     lastSeq := if recSeq then 0 else -1,
     txIdx := fun _ => none, cache := [], pool := [] }
 
+/-- node restart on the same data directory: the databases survive (`stored`, `tds`, `h2h`, `last`,
+sequence log, transaction index); `InitIndexAndBestView` rebuilds index and best-chain view from the
+main chain (all of it: the chains considered are shorter than InitBlockNum = 10240; every node gets
+pid "self", no error log; side-branch nodes are gone), the orphan pool and the mempool start empty,
+`InitCache` rebuilds the txHeight cache. -/
+def restart (P : Params) (s : State) : State :=
+  { s with index := s.best,
+           srcOf := fun id => if s.best.any (fun b => b.id == id) then some .self else none,
+           errLog := fun _ => none,
+           orphans := [], pool := [],
+           cache := cacheRebuild P s }
+
+/-- the mempool asks the chain before admitting (`checkTxRemote` → EventTxHashList → `HasTx`): a
+transaction already on the best chain (transaction index; window cache for TxHeight) is refused. -/
+def dupOnChain (P : Params) (s : State) (t : Nat) : Bool :=
+  match P.txh t with
+  | some h => s.cache.contains (h, P.key t)
+  | none => (s.txIdx (P.key t)).isSome
+
 /-- external events: a block handed to `ProcessBlock`, a transaction entering / leaving the mempool. -/
 inductive Ev
   | deliver (b : Blk) (src : Src)
   | poolAdd (t : Nat)   -- a transaction instance is admitted by the mempool
   | poolDel (h : Nat)   -- the transaction of hash `h` leaves the mempool
+  | restart             -- the node is stopped and started again on the same data directory
 
 def step (P : Params) (s : State) : Ev → State
   | .deliver b src => (processBlock P s b src).1
-  | .poolAdd t => { s with pool := poolPush P s.pool t }
+  | .poolAdd t => if dupOnChain P s t then s else { s with pool := poolPush P s.pool t }
   | .poolDel h => { s with pool := s.pool.filter (fun p => P.key p != h) }
+  | .restart => restart P s
 
 def run (P : Params) (s : State) (evs : List Ev) : State := evs.foldl (step P) s
 
@@ -652,7 +688,8 @@ def handle (d : DState) (line : String) : DState × String :=
     match d.st, inst.toNat? with
     | some s, some i =>
       if d.txs.any (fun e => e.1 == i) then
-        ({ d with st := some (step (ofTable (table d.txs)) s (.poolAdd i)), started := true }, "ok")
+        ({ d with st := some (step (ofTable (table d.txs)) s (.poolAdd i)), started := true },
+          if dupOnChain (ofTable (table d.txs)) s i then "ErrDupTx" else "ok")
       else (d, "bad-op")
     | _, _ => (d, "bad-op")
   | ["pool?", tag] =>
@@ -685,6 +722,12 @@ def handle (d : DState) (line : String) : DState × String :=
         else if op == "isorphan" then (d, if isKnownOrphan s hdr then "yes" else "no")
         else (d, "bad-op")
     | _, _ => (d, "bad-op")
+  | ["restart"] =>
+    match d.st with
+    | some s =>
+      let s' := restart (ofTable (table d.txs)) s
+      ({ d with st := some s', started := true }, tipStr s')
+    | none => (d, "bad-op")
   | ["scan"] =>
     match d.st with
     | some _ => ({ d with started := true }, "ok")
